@@ -6,26 +6,33 @@ META = {
     "engine": "ConcGo",
     "technique": "TLA+ interpreter of Go's goroutine/channel semantics (ConcGo.tla); TLC explores every schedule of each generated program and decides deadlock-freedom, panic-freedom and output determinism, yielding the unique expected output; the programs are run on the real VM (go statement allowed) under several GOMAXPROCS and hook-injected yields with the race detector; outputs judged by a TLC Trace spec",
     "level": "model_checking",
-    "level_text": "For each seeded batch of concurrent programs (pipelines, fan-in, fan-out, select fan-in, select statements with several send cases and receive cases, ping-pong, buffered/unbuffered, close/range, plus deliberately broken variants), TLC explores ALL schedules of the ConcGo model: programs that can deadlock, panic or print schedule-dependent output are discarded as outside the property's domain, for the others the unique output over all schedules is the expected output. Each valid program is built by the real scriggo and run under GOMAXPROCS 1/2/4/16 with seeded yields injected at the channel hooks, in a -race build; every run's printed output must equal the model's output and the race detector must stay silent.",
-    "level_note": "Trusted: TLC, the concretiser (record -> Go source, string templates), Go's race detector for data races (the spec supplies the programs and yield points, not race detection itself). gc itself is not run on the passing path: the Go semantics is the TLA+ model. sync/time-based programs are not generated.",
+    "level_text": "For each seeded batch of concurrent programs (pipelines, fan-in, fan-out, select fan-in, select statements with several send cases and receive cases - in main and inside worker goroutines -, select with a default clause alone and in counter-bounded polling loops, v, ok := <-c on open and closed channels and for-loops that break on !ok, len/cap of buffered and nil channels, nil channels as select cases, goroutines that panic (statement or run-time panic of a channel operation) and recover in a deferred function that then sends, channels closed by a deferred call, unbuffered rendezvous chains of three goroutines, ping-pong, buffered/unbuffered, close/range, plus deliberately broken variants), TLC explores ALL schedules of the ConcGo model: programs that can deadlock, panic or print schedule-dependent output are discarded as outside the property's domain, for the others the unique output over all schedules is the expected output. Each valid program is built by the real scriggo and run under GOMAXPROCS 1/2/4/16 with seeded yields injected at the channel hooks, in a -race build; every run's printed output must equal the model's output and the race detector must stay silent.",
+    "level_note": "Trusted: TLC, the concretiser (record -> Go source, string templates), Go's race detector for data races (the spec supplies the programs and yield points, not race detection itself). gc itself is not run on the passing path: the Go semantics is the TLA+ model (during development the generated programs were also run on gc, which agreed with the model on all of them). For a select with default, a partner that has reached its blocking operation on an unbuffered channel may or may not have parked yet: the model explores both. A panic inside a deferred function is over-approximated as a crash (such programs are left out). sync/time-based programs are not generated.",
     "design_ref": "7/C14",
 }
 FAMS = ["concgo"]
+# A send on a closed channel, executed by the VM as a reflect.Select (a select statement, or a plain send when the
+# run has a context that can be cancelled), panics and leaves its cases in vm.cases; after a deferred function has
+# recovered, the next channel operation selects on the stale cases too: it panics again, or (in a goroutine) the
+# goroutine dies and main waits for ever.  Fix proposed in /tmp/c14_fix.diff (runRecoverable drops vm.cases).
+PROPOSED_KNOWN = []   # integrated into known-findings.json (fixed by a0f8682)
 
 
 # ------------------------------------------------------------------ seeded generator of shapes
 def gen_programs(rng, n):
     out = []
-    shapes = [pipeline, fanin, fanout, selectfanin, buffered_only, pingpong, waitgroup, closer, natburst, selectsend]
+    shapes = [pipeline, fanin, fanout, selectfanin, buffered_only, pingpong, waitgroup, closer, natburst, selectsend,
+              nbfill, nbpoll, polldrain, recvok, loopok, lencap, lensync, nilselect, nilmisc, workersel, crosssel,
+              recoversend, deferclose, recoverrt, chain3, chain3sum]
     for i in range(n):
         f = shapes[i % len(shapes)]
         p = f(rng)
-        p["shape"] = f.__name__
+        p["shape"] = f.__name__ + p.pop("sub", "")
         # threads whose body is a single send / close may be started as `go` on a HOST function / builtin
         p["native"] = [t + 1 for t, th in enumerate(p["threads"]) if t > 0 and len(th) == 1 and th[0]["op"] in ("send", "close") and (p.get("allnative") or rng.random() < 0.6)]
         p.pop("allnative", None)
         p["style"] = rng.randint(0, 2)
-        if rng.random() < 0.15:
+        if i % 7 == 5:
             p = perturb(rng, p)
         p["id"] = i + 1
         out.append(p)
@@ -160,23 +167,234 @@ def waitgroup(rng):
     return {"chans": chans, "threads": threads}
 
 
+# ---- select with a default clause
+def NB(n=1, chs=(), schs=(), vs=(), hit=1, dflt=100):
+    return I("selnb", n=n, chs=list(chs), schs=list(schs), vs=list(vs), hit=hit, dflt=dflt)
+
+
+def nbfill(rng):
+    """non-blocking sends into a buffered channel of capacity k: the first k succeed, the others take the default clause"""
+    k, m = rng.randint(0, 2), rng.randint(2, 3)
+    if rng.random() < 0.5:
+        main = [NB(n=m, schs=[1], vs=[7])]
+    else:
+        main = [NB(schs=[1], vs=[7 + j]) for j in range(m)]
+    main += [I("print"), I("lenp", ch=1), I("close", ch=1), I("rangep", ch=1)]
+    return {"chans": [k], "threads": [main]}
+
+
+def nbpoll(rng):
+    """k values wait in a buffered channel; a polling loop of m non-blocking receives gets them, then the default"""
+    k, m = rng.randint(0, 2), rng.randint(2, 4)
+    kind = rng.randint(0, 2)
+    main = [I("send", ch=1, v=20 + j) for j in range(k)]
+    if kind == 0:
+        main += [NB(n=m, chs=[1])]
+    elif kind == 1:
+        # an unbuffered channel nobody else uses and a send case on it: never ready
+        main += [NB(n=m, chs=[1, 2], schs=[2], vs=[5])]
+    else:
+        # closed channel: after the data every poll receives the zero value, never the default
+        main += [I("close", ch=1), NB(n=m, chs=[1])]
+    main += [I("print")]
+    return {"chans": [max(k, 1), 0], "threads": [main]}
+
+
+def polldrain(rng):
+    """a producer sends n values and closes; main polls a few times (default adds nothing), then drains: the sum is fixed"""
+    n = rng.randint(1, 3)
+    main = [I("go", t=2), NB(n=rng.randint(1, 3), chs=[1], dflt=0), I(rng.choice(["range", "loopok"]), ch=1, nok=0), I("print")]
+    prod = [I("send", ch=1, v=30 + j) for j in range(n)] + [I("close", ch=1)]
+    return {"chans": [rng.choice([0, 1, 3])], "threads": [main, prod]}
+
+
+# ---- receive with ok
+def recvok(rng):
+    """v, ok := <-c on a channel with data, closed with data, closed and empty"""
+    k = rng.randint(0, 2)
+    main = [I("send", ch=1, v=50 + j) for j in range(k)]
+    if rng.random() < 0.5:
+        main += [I("close", ch=1)] + [I("recvok", ch=1, nok=1000) for _ in range(k + rng.randint(1, 2))] + [I("print")]
+        return {"chans": [max(k, 1)], "threads": [main]}
+    # the last receive on c1 waits for the worker's close; the one on c2 finds an open channel
+    main += [I("go", t=2)] + [I("recvok", ch=1, nok=1000) for _ in range(k + 1)] + [I("recvok", ch=2, nok=3000), I("print")]
+    return {"chans": [max(k, rng.randint(0, 1)), rng.choice([0, 1])], "threads": [main, [I("close", ch=1), I("send", ch=2, v=9)]]}
+
+
+def loopok(rng):
+    """for { v, ok := <-c; if !ok { break }; ... } as the consumer of a producer, in main or in a worker"""
+    n = rng.randint(1, 3)
+    prod = [I("send", ch=1, v=60 + j) for j in range(n)] + [I("close", ch=1)]
+    if rng.random() < 0.5:
+        return {"chans": [rng.choice([0, 1, 2])], "threads": [[I("go", t=2), I("loopok", ch=1, nok=500), I("print")], prod]}
+    cons = [I("loopok", ch=1, nok=500), I("sendacc", ch=2)]
+    main = [I("go", t=3), I("go", t=2), I("recvok", ch=2, nok=7000), I("print")]
+    return {"chans": [rng.choice([0, 1, 2]), rng.choice([0, 1])], "threads": [main, prod, cons]}
+
+
+# ---- len and cap
+def lencap(rng):
+    """len / cap of a buffered channel that only main uses, before and after sends, receives and close"""
+    n = rng.randint(1, 3)
+    k = rng.randint(0, n)
+    main = [I("capp", ch=1), I("lenp", ch=1)] + [I("send", ch=1, v=70 + j) for j in range(k)] + [I("lenp", ch=1)]
+    if k > 0:
+        main += [I("recv", ch=1), I("lenacc", ch=1)]
+    main += [I("close", ch=1), I("lenp", ch=1), I("print")]
+    return {"chans": [n], "threads": [main]}
+
+
+def lensync(rng):
+    """a worker fills a buffered channel and then signals on another one: len is fixed once the signal has arrived"""
+    n = rng.randint(1, 3)
+    w = [I("send", ch=1, v=80 + j) for j in range(n)] + [I("send", ch=2, v=1)]
+    main = [I("go", t=2), I("recv", ch=2), I("lenp", ch=1), I("capp", ch=1), I("capp", ch=2), I("lenp", ch=2), I("recv", ch=1), I("lenacc", ch=1), I("print")]
+    return {"chans": [n + rng.randint(0, 1), rng.choice([0, 1])], "threads": [main, w]}
+
+
+# ---- nil channels
+def nilselect(rng):
+    """a nil channel case of a select is never ready: the other case is the one that proceeds"""
+    kind = rng.randint(0, 2)
+    if kind == 0:
+        sel = I("selsend", chs=rng.choice([[1, 2], [2, 1]]), schs=[], vs=[])
+        return {"chans": [-1, rng.choice([0, 1])], "threads": [[I("go", t=2), sel, dict(sel), I("print")], [I("send", ch=2, v=90), I("send", ch=2, v=91)]]}
+    if kind == 1:
+        # nil channel in a send case, the data arrives on the receive case
+        sel = I("selsend", chs=[2], schs=[1], vs=[4])
+        return {"chans": [-1, rng.choice([0, 1])], "threads": [[I("go", t=2), sel, I("print")], [I("send", ch=2, v=92)]]}
+    # select with default whose only cases are on a nil channel, then one with a ready case too
+    main = [NB(chs=[1], schs=[1], vs=[3]), I("send", ch=2, v=93), NB(n=2, chs=[1, 2], schs=[1], vs=[3]), I("print")]
+    return {"chans": [-1, 1], "threads": [main]}
+
+
+def nilmisc(rng):
+    """len and cap of a nil channel; a goroutine parked for ever on a nil channel does not stop main"""
+    main = [I("lenp", ch=1), I("capp", ch=1), I("go", t=2), I("go", t=3), I("recv", ch=2), I("print")]
+    return {"chans": [-1, rng.choice([0, 1])], "threads": [main, [I(rng.choice(["recv", "range"]), ch=1)], [I("send", ch=2, v=94)]]}
+
+
+# ---- select with send and receive cases inside worker goroutines
+def workersel(rng):
+    """a worker runs two selects, each with a receive case on one channel and a send case on another; main serves both"""
+    v = rng.choice([7, 12])
+    sel = I("selsend", chs=[1], schs=[2], vs=[v])
+    w = [sel, dict(sel), I("sendacc", ch=3)]
+    ops = [I("send", ch=1, v=10), I("recv", ch=2)]
+    rng.shuffle(ops)
+    main = [I("go", t=2)] + ops + [I("recv", ch=3), I("print")]
+    # (the channel the worker sends on is unbuffered: with room in it the worker could send twice)
+    return {"chans": [rng.choice([0, 1]), 0, rng.choice([0, 1])], "threads": [main, w]}
+
+
+def crosssel(rng):
+    """two workers in opposite selects on two unbuffered channels (each sends on the one the other receives from), equal values"""
+    v = rng.choice([5, 8])
+    s1 = I("selsend", chs=[1], schs=[2], vs=[v])
+    s2 = I("selsend", chs=[2], schs=[1], vs=[v])
+    k = rng.randint(1, 2)
+    w1 = [dict(s1) for _ in range(k)] + [I("sendacc", ch=3)]
+    w2 = [dict(s2) for _ in range(k)] + [I("sendacc", ch=3)]
+    main = [I("go", t=2), I("go", t=3), I("recv", ch=3), I("recv", ch=3), I("print")]
+    return {"chans": [0, 0, rng.choice([0, 2])], "threads": [main, w1, w2]}
+
+
+# ---- panics, recover and deferred calls in goroutines
+def recoversend(rng):
+    """a goroutine panics, its deferred function recovers and then sends on the done channel"""
+    k = rng.randint(0, 2)
+    w = [I("defer", ds=[I("recover"), I("send", ch=2, v=1)])] + [I("send", ch=1, v=110 + j) for j in range(k)] + [I("panic"), I("send", ch=1, v=999)]
+    main = [I("go", t=2)] + [I("recv", ch=1) for _ in range(k)] + [I("recv", ch=2), I("print"), I("lenp", ch=1)]
+    return {"chans": [rng.choice([0, 2]), rng.choice([0, 1])], "threads": [main, w]}
+
+
+def deferclose(rng):
+    """the producer closes its channel from a deferred call (defer close(c)), with or without a second deferred function"""
+    n = rng.randint(1, 3)
+    w = [I("defer", ds=[I("close", ch=1)])]
+    main = [I("go", t=2), I("range", ch=1), I("print")]
+    chans = [rng.choice([0, 1, 2])]
+    if rng.random() < 0.5:
+        # deferred calls run last first: the send on done comes before the close
+        w.append(I("defer", ds=[I("send", ch=2, v=2)]))
+        chans.append(rng.choice([0, 1]))
+        main = [I("go", t=2)] + [I("recv", ch=1) for _ in range(n)] + [I("recv", ch=2), I("recvok", ch=1, nok=100), I("print")]
+    w += [I("send", ch=1, v=120 + j) for j in range(n)]
+    return {"chans": chans, "threads": [main, w]}
+
+
+def recoverrt(rng):
+    """a run-time panic (close of a closed / nil channel, send on a closed channel, alone or as a select case) recovered
+    by a deferred function, which then sends; the kind is part of the shape's name (it identifies the root cause)"""
+    kind = rng.randint(0, 3)
+    d = I("defer", ds=[I("recover"), I("sendacc", ch=2)])
+    chans = [rng.choice([0, 1]), rng.choice([0, 1])]
+    if kind == 0:
+        w = [d, I("add", v=3), I("close", ch=1), I("close", ch=1), I("add", v=50)]
+    elif kind == 1:
+        w = [d, I("add", v=4), I("close", ch=1), I("send", ch=1, v=1), I("add", v=50)]
+    elif kind == 2:
+        w = [d, I("add", v=5), I("close", ch=1), I("add", v=50)]
+        chans[0] = -1
+    else:
+        d = I("defer", ds=[I("recover"), I("selsend", chs=[], schs=[2], vs=[8])])
+        w = [d, I("close", ch=1), I("selsend", chs=[], schs=[1], vs=[1]), I("add", v=50)]
+    main = [I("go", t=2), I("recv", ch=2), I("print")]
+    if rng.random() < 0.4:
+        # main itself panics after the worker's value has arrived and recovers in a deferred function that prints
+        main = [I("defer", ds=[I("recover"), I("print")]), I("go", t=2), I("recv", ch=2), I("panic"), I("printc", v=66)]
+    return {"chans": chans, "threads": [main, w], "sub": ["-closeclosed", "-sendclosed", "-closenil", "-selclosed"][kind]}
+
+
+# ---- unbuffered rendezvous chains a -> b -> c -> main
+def chain3(rng):
+    n = rng.randint(1, 2)
+    a = [I("send", ch=1, v=130 + j) for j in range(n)]
+    b, c, main = [], [], [I("go", t=t) for t in rng.sample([2, 3, 4], 3)]
+    for _ in range(n):
+        b += [I("recv", ch=1), I("add", v=1), I("sendacc", ch=2)]
+        c += [I("recv", ch=2), I("sendacc", ch=3)]
+        main += [I("recvp", ch=3)]
+    return {"chans": [0, 0, 0], "threads": [main, a, b, c]}
+
+
+def chain3sum(rng):
+    """the same chain with closing: each stage forwards until its input is closed, then closes its output"""
+    n = rng.randint(1, 3)
+    a = [I("send", ch=1, v=140 + j) for j in range(n)] + [I("close", ch=1)]
+    b = [I("rangefwd", ch=1, ch2=2, add=rng.randint(0, 2)), I("close", ch=2)]
+    c = [I("defer", ds=[I("close", ch=3)]), I("rangefwd", ch=2, ch2=3, add=1)]
+    main = [I("go", t=t) for t in rng.sample([2, 3, 4], 3)] + [I("loopok", ch=3, nok=1000), I("print")]
+    return {"chans": [0, 0, 0], "threads": [main, a, b, c]}
+
+
 def perturb(rng, p):
     """deliberately broken variants: TLC must classify them (deadlock / panic / nondeterministic)"""
     p = json.loads(json.dumps(p))
-    kind = rng.choice(["dropclose", "dupclose", "workerprint"])
-    for th in p["threads"]:
-        for i, ins in enumerate(th):
-            if kind == "dropclose" and ins["op"] == "close":
-                del th[i]
-                p["shape"] += "+dropclose"
-                return p
-            if kind == "dupclose" and ins["op"] == "close":
-                th.insert(i, dict(ins))
-                p["shape"] += "+dupclose"
-                return p
-    if len(p["threads"]) > 1:
+    ins_all = [(th, i, ins) for th in p["threads"] for i, ins in enumerate(th)]
+    closes = [x for x in ins_all if x[2]["op"] == "close"]
+    recovers = [x for x in ins_all if x[2]["op"] == "defer" and x[2]["ds"][0]["op"] == "recover"]
+    polls = [x for x in ins_all if x[2]["op"] == "selnb"] if len(p["threads"]) > 1 else []
+    kinds = (["dropclose", "dupclose"] if closes else []) + (["droprecover"] if recovers else []) + (["dflt"] if polls else []) \
+        + (["nilchan"] if -1 not in p["chans"] else []) + (["workerprint"] if len(p["threads"]) > 1 else [])
+    if not kinds:
+        return p
+    kind = rng.choice(kinds)
+    p["shape"] += "+" + kind
+    if kind == "dropclose":
+        th, i, _ = closes[0]
+        del th[i]
+    elif kind == "dupclose":
+        th, i, ins = closes[0]
+        th.insert(i, dict(ins))
+    elif kind == "droprecover":       # the panic is no longer recovered
+        del recovers[0][2]["ds"][0]
+    elif kind == "dflt":              # the number of polls that find the channel empty now shows in the sum
+        polls[0][2]["dflt"] += 100
+    elif kind == "nilchan":
+        p["chans"][rng.randrange(len(p["chans"]))] = -1
+    else:
         p["threads"][1].append(I("printc", v=3))
-        p["shape"] += "+workerprint"
     return p
 
 
@@ -191,17 +409,17 @@ def tla(v):
 
 
 def run(ctx, only_ids=None):
-    nprog = ctx.pick(42, 280)
+    nprog = ctx.pick(52, 312)
     progs = gen_programs(random.Random(ctx.seed * 7919 + 1), nprog)
-    batch = 14
+    batch = 26
     cases = []
     states = trans = 0
-    verdicts = {}
+    verdicts, byshape = {}, {}
     for b in range(0, len(progs), batch):
         part = progs[b:b + batch]
         wd = ctx.stage(f"mc_{b // batch}", FAMS)
         (wd / "ConcGoProgs.tla").write_text(
-            "---- MODULE ConcGoProgs ----\nProgs == <<\n" + ",\n".join(tla(p) for p in part) + "\n>>\n====\n")
+            "---- MODULE ConcGoProgs ----\nEXTENDS Integers\nProgs == <<\n" + ",\n".join(tla(p) for p in part) + "\n>>\n====\n")
         rig.write_cfg(wd / "MC_ConcGo.cfg", spec="Spec", invariants=["Observe"], postcondition="Export")
         r = ctx.tlc(wd, "MC_ConcGo", workers=1, timeout=1200, must_pass=True)
         states += r.distinct
@@ -210,9 +428,13 @@ def run(ctx, only_ids=None):
         for p in part:
             v = res[p["id"]]
             verdicts[v["verdict"]] = verdicts.get(v["verdict"], 0) + 1
+            # per shape (a "+kind" suffix marks a deliberately broken variant)
+            sh = byshape.setdefault(p["shape"].split("-")[0] if "+" not in p["shape"] else "perturbed:" + p["shape"].split("+")[1], {})
+            sh[v["verdict"]] = sh.get(v["verdict"], 0) + 1
             if v["verdict"] == "ok":
-                cases.append({"id": p["id"], "prog": p, "exp": v["exp"], "shape": p["shape"]})
-    ctx.cov.update(states=states, transitions=trans, programs_generated=len(progs), model_verdicts=verdicts)
+                # (a broken variant that is still valid is labelled with its base shape: signatures name the shape)
+                cases.append({"id": p["id"], "prog": p, "exp": v["exp"], "shape": p["shape"].split("+")[0]})
+    ctx.cov.update(states=states, transitions=trans, programs_generated=len(progs), model_verdicts=verdicts, model_verdicts_by_shape=byshape)
     if verdicts.get("ok", 0) < nprog // 2:
         raise Infra(f"generator produced too few valid programs: {verdicts}")
     if sum(v for k, v in verdicts.items() if k != "ok") == 0:
